@@ -5,6 +5,12 @@ V = os.path.dirname(os.path.dirname(os.path.abspath(__file__)))
 
 CHECKS = {
 
+ 'C20': dict(
+   technique='differential runtime monitor across processes on a non-sanitized build: same document/URL transformed (vxform and the real uscxml-transform binary) and interpreted in fresh processes with perturbed memory layouts (env padding, malloc tunables) and cold/warm cache files; emitted bytes and traces compared',
+   text='Exploration: seeded random and hand-shaped stress documents (nested invoked machines with ids, event names with non-identifier characters) x back-ends x 3-4 processes with different layouts; any byte difference between outputs, or any difference between interpreter traces (both engines, cache cold then warm), is a violation.',
+   note='Trusted: ASLR and glibc malloc tunables do perturb addresses (plain build). Determinism across machines/compilers (std::hash) cannot be observed in one sandbox.',
+   ref='DESIGN.md 3/C20'),
+
  'C06': dict(
    technique='differential runtime monitor on the real artefact: ChartToPromela output executed by the spin simulator (spin -T, 3 seeds, never the pan verifier); TRACE_EXECUTION output compared with the interpreter history of the same document',
    text='Exploration: seeded random promela-datamodel documents whose events are produced by the document itself are transpiled, simulated with spin and compared step by step (event, exits, entries, transitions, log values, final configuration) with the interpreter; seeds sample the executions of the (deterministic) model.',
